@@ -35,6 +35,8 @@ func main() {
 		os.Exit(cmdFn(os.Args[2:]))
 	case "dump":
 		os.Exit(cmdDump(os.Args[2:]))
+	case "modset":
+		os.Exit(cmdModset(os.Args[2:]))
 	case "selftest":
 		os.Exit(cmdSelftest(os.Args[2:]))
 	default:
@@ -219,3 +221,38 @@ func countOK(as []*aggGoal) int {
 }
 
 var _ = ssa.NaiveForm
+
+
+func cmdModset(args []string) int {
+	fs := flag.NewFlagSet("modset", flag.ExitOnError)
+	repo := fs.String("repo", "/repo", "repository")
+	verif := fs.String("verif", "/verif", "verif dir")
+	pkgs := fs.String("pkgs", "./...", "package patterns")
+	name := fs.String("fn", "", "function name substring")
+	fs.Parse(args)
+	p, err := loadProgram(*repo, strings.Fields(*pkgs))
+	if err != nil {
+		fmt.Fprintln(os.Stderr, err)
+		return 3
+	}
+	cs, err := p.collectContracts(*verif)
+	if err != nil {
+		fmt.Fprintln(os.Stderr, err)
+		return 3
+	}
+	var names []string
+	for n, f := range p.funcs {
+		if strings.Contains(n, *name) && inModule(f) {
+			names = append(names, n)
+		}
+	}
+	sort.Strings(names)
+	for _, n := range names {
+		ms := p.modSetOf(cs, p.funcs[n])
+		fmt.Printf("%s: all=%v %s\n", n, ms.all, ms.why)
+		for _, c := range ms.sorted() {
+			fmt.Printf("    %-8s %s\n", map[bool]string{true: "NONFRESH", false: "fresh"}[ms.nonfresh[c]], c)
+		}
+	}
+	return 0
+}
